@@ -70,7 +70,8 @@ def table_92():
             t = " ".join(t.split())
             return (t[:60] + "...") if len(t) > 63 else t
         edit = f"`{one(m['old'])}` -> `{one(m['new'])}`".replace("|", "\\|")
-        exp = ", ".join([f"breaks {p}" for p in m.get("breaks", [])] + [f"keeps {p}" for p in m.get("keeps", [])])
+        exp = ", ".join([f"breaks {p}" for p in m.get("breaks", [])] + [f"keeps {p}" for p in m.get("keeps", [])]
+                        + [f"benign for {p}" for p in m.get("benign", [])])
         res = ", ".join(f"{p}: {v}" for p, v in r["verdict"].items())
         obs = []
         for pid in m.get("breaks", []):
